@@ -200,7 +200,20 @@ def o_c04(ctx, desc, obs, model, kw):
                 bad = {col: r[col] for col in ("vin", "vout", "iin", "iout", "pwr", "loss") if r[col] != 0.0}
                 if bad:
                     # numpy's allclose has a fixed absolute tolerance of 1e-8: a quantity below it never makes the solver iterate
-                    ctx.oracle(desc, "dead_supply_all_zero", k, {"below_numpy_atol": all(abs(x) < 1e-8 * len(desc["comps"]) for x in bad.values())},   # a row's Iout sums its children
+                    lim = 1e-8 * len(desc["comps"])
+
+                    def tiny_stage_above(n, depth=0):
+                        # a regulated stage whose NOMINAL output is itself below the tolerance: its first-sweep change (nominal -> 0) passes
+                        # the exit test, so whatever hangs below it keeps its initial guess at full size (F38, third face)
+                        if n is None or depth > len(comps):
+                            return False
+                        c_ = comps[n]
+                        if c_["kind"] in ("converter", "linreg") and abs(c_["args"].get("vo", 1.0)) < lim:
+                            return True
+                        ps = declared_parents(desc)[n]
+                        return bool(ps) and c_["kind"] != "pmux" and tiny_stage_above(ps[0], depth + 1)
+                    ctx.oracle(desc, "dead_supply_all_zero", k, {"below_numpy_atol": all(abs(x) < lim for x in bad.values()),   # a row's Iout sums its children
+                                                                 "sub_atol_stage_above": tiny_stage_above(r["name"])},
                                {"phase": ph, "row": r["name"], "nonzero": bad})
             elif odead[r["name"]]:
                 hit = True
